@@ -143,10 +143,18 @@ func (c *AppenderRefs) sortByLevel() {
 		return iCode < jCode
 	})
 
-	// Adjust MaxLevel to match the next appender's MinLevel if needed
-	for i := len(c.AppenderRefs) - 1; i >= 1; i-- {
-		if c.AppenderRefs[i-1].Level.MaxLevel == MaxLevel {
-			c.AppenderRefs[i-1].Level.MaxLevel = c.AppenderRefs[i].Level.MinLevel
+	// An open-ended range ends where the next higher MinLevel begins.
+	// References with the same MinLevel share that range instead of
+	// cutting each other down to an empty one.
+	for i, r := range c.AppenderRefs {
+		if r.Level.MaxLevel != MaxLevel {
+			continue
+		}
+		for _, next := range c.AppenderRefs[i+1:] {
+			if next.Level.MinLevel.code > r.Level.MinLevel.code {
+				r.Level.MaxLevel = next.Level.MinLevel
+				break
+			}
 		}
 	}
 }
